@@ -254,9 +254,9 @@ func det(a map[string]string) {
 
 	type cell struct {
 		plans, reqs, xreqs [][2]string // (label, digest)
-		dumps       map[string]string
-		nreq        int
-		freshErr    bool
+		dumps              map[string]string
+		nreq               int
+		freshErr           bool
 	}
 	cells := make([][]*cell, len(jobs))
 	for ji := range jobs {
